@@ -84,6 +84,27 @@ func init() {
 		}
 		return p.addrValue(fn.Signature.Results().At(0).Type(), a)
 	}
+	prefixValue := func(p *Path, t types.Type, pf netip.Prefix) Value {
+		st := t.Underlying().(*types.Struct)
+		return &StructV{Typ: t, Fields: []Value{p.addrValue(st.Field(0).Type(), pf.Addr()), p.tc.Const(8, uint64(pf.Bits()+1))}}
+	}
+	intrinsics["net/netip.MustParsePrefix"] = func(p *Path, fn *ssa.Function, args []Value) Value {
+		s := p.concreteArgString(args[0], "netip.MustParsePrefix")
+		pf, err := netip.ParsePrefix(s)
+		if err != nil {
+			p.obligation(p.tc.False, "panic", "explicit-panic", "netip.MustParsePrefix: "+err.Error())
+			p.end("gopanic", "MustParsePrefix")
+		}
+		return prefixValue(p, fn.Signature.Results().At(0).Type(), pf)
+	}
+	intrinsics["net/netip.ParsePrefix"] = func(p *Path, fn *ssa.Function, args []Value) Value {
+		s := p.concreteArgString(args[0], "netip.ParsePrefix")
+		pf, err := netip.ParsePrefix(s)
+		if err != nil {
+			return TupleV{p.zero(fn.Signature.Results().At(0).Type()), p.errValue(err, "netip.ParsePrefix")}
+		}
+		return TupleV{prefixValue(p, fn.Signature.Results().At(0).Type(), pf), &IfaceV{}}
+	}
 	intrinsics["strconv.ParseUint"] = func(p *Path, fn *ssa.Function, args []Value) Value {
 		s := p.concreteArgString(args[0], "strconv.ParseUint")
 		base, bits := args[1].(*Term), args[2].(*Term)
